@@ -264,6 +264,24 @@ def o_announce(cimp, ctx):
     return probs
 
 
+def o_dry_inert(cimp, ctx):
+    """C10 on projects with directory patterns: a dry run starts no function (generators apart) and creates,
+    changes or deletes no file outside .pytask"""
+    probs = []
+    if not ctx["op"]["cfg"]["dry_run"]:
+        return probs
+    gens = {t["id"] for t in ctx["op"]["tasks"] if t["is_gen"]}
+    ran = [t for t in EO._started(cimp) if t not in gens]
+    if ran:
+        probs.append((f"a dry run executed the functions of tasks {sorted(set(ran))}", ()))
+    before = {int(k): v for k, v in ctx["raw"]["files_before"].items()}
+    after = {int(k): v for k, v in ctx["raw"]["files"].items()}
+    if before != after and not gens:
+        diff = sorted(k for k in set(before) | set(after) if before.get(k) != after.get(k))
+        probs.append((f"a dry run created, changed or deleted files (nodes {diff})", ()))
+    return probs
+
+
 def gen_dry_history(rng, idx, base):
     """no generators; every edit is followed by a dry run and then the real build"""
     tasks, sources = gen_project(rng, allow_gen=False)
